@@ -1700,7 +1700,10 @@ class TextQueryBackend(Backend):
         if arg is None:
             return None
         try:
-            if arg.__class__ in self.precedence:  # group if AND or OR condition is negated
+            if arg.__class__ in self.precedence or (
+                isinstance(arg, (ConditionFieldEqualsValueExpression, ConditionValueExpression))
+                and isinstance(arg.value, SigmaExpansion)
+            ):  # group if AND or OR condition (or an expansion that converts into an OR) is negated
                 converted_group: str | DeferredQueryExpression | None = (
                     self.convert_condition_group(arg, state)
                 )
